@@ -151,8 +151,9 @@ def neg(op, input, *args, **kwargs):
     if input.qtype.is_floating_point:
         # Neg is not supported for float8
         return op(input.dequantize(), *args, **kwargs)
-    out_data = op(input._data, *args, **kwargs)
-    return QBytesTensor(input.qtype, input.axis, input.size(), input.stride(), out_data, input._scale)
+    # Negate the scale rather than the data: the opposite of the int8 code -128 is not representable
+    out_scale = op(input._scale, *args, **kwargs)
+    return QBytesTensor(input.qtype, input.axis, input.size(), input.stride(), input._data, out_scale)
 
 
 @register_qbytestensor_op(
